@@ -45,6 +45,8 @@ func checkC07(c *chk.Ctx) {
 	ruleR06dInto(h, "R07g", false)
 	h.Rule("R07h", "K3", "the follower's applied commit offset is only assigned from DB.ReadCommitOffset or from the offset of an entry it has just applied (shared with R06e)", 2)
 	ruleAppliedOffsetProvenance(h, "R07h")
+	ruleCommittedContinuationsSucceed(h, "R07i")
+	ruleCommitCheckUnderLock(h, "R07j")
 }
 
 func ruleR07a(h *H, rule string) {
